@@ -644,11 +644,11 @@ func (c *Ctx) checkFileMeta() {
 				}
 				switch f.Name() {
 				case "FileSize":
-					if h, ok := ci.Common().Args[1].(*ssa.Call); ok {
+					if h, ok := resolveLocal(ci.Common().Args[1]).(*ssa.Call); ok {
 						fsHelper, fsArg = h, h.Call.Args[0]
 					}
 				case "BlockSizes":
-					if h, ok := ci.Common().Args[1].(*ssa.Call); ok {
+					if h, ok := resolveLocal(ci.Common().Args[1]).(*ssa.Call); ok {
 						bsHelper, bsArg = h, h.Call.Args[0]
 					}
 				}
@@ -707,7 +707,7 @@ func (c *Ctx) checkFileMeta() {
 					if !ok || f1 == nil || fv != f1 {
 						continue
 					}
-					if h, ok := st.Val.(*ssa.Call); ok && h.Call.StaticCallee() == fsHelper.Call.StaticCallee() && c.varPath(h.Call.Args[0], 0) == cv1 {
+					if h, ok := resolveLocal(st.Val).(*ssa.Call); ok && h.Call.StaticCallee() == fsHelper.Call.StaticCallee() && c.varPath(h.Call.Args[0], 0) == cv1 {
 						okRet = true
 					}
 				}
@@ -717,6 +717,12 @@ func (c *Ctx) checkFileMeta() {
 			}
 		}
 		r.Check(len(bad) == 0, "R11.3", key, pos, "FileSize = Σ byteSize, BlockSizes = [byteSize…] and own byteSize over the very slice whose links are packed", strings.Join(bad, "; "))
+	}
+	for _, fn := range c.G.Funcs() {
+		rel, ok := c.P.PkgOf(fn)
+		if !ok || rel != "data/builder" {
+			continue
+		}
 		// leaf: byteSize = len(chunk) of the chunk stored
 		for _, b := range fn.Blocks {
 			for _, ins := range b.Instrs {
@@ -848,4 +854,53 @@ func (c *Ctx) checkCountingStore() {
 		r.Check(good, "R11.4", key, c.P.Pos(cbCall.Pos()), "the byte count is reported only after the encoder returned nil", "the byte count callback is not guarded by the encoder's success")
 	}
 	r.Floor("R11.4", n, 2)
+}
+
+// resolveLocal follows a value through a captured or local single-assignment cell: a closure's free variable is traced to
+// the cell bound in the parent and to the one value stored there; a load of a local cell to its stored value.
+func resolveLocal(v ssa.Value) ssa.Value {
+	for i := 0; i < 4; i++ {
+		u, ok := v.(*ssa.UnOp)
+		if !ok || u.Op != token.MUL {
+			return v
+		}
+		var cell *ssa.Alloc
+		switch a := u.X.(type) {
+		case *ssa.Alloc:
+			cell = a
+		case *ssa.FreeVar:
+			cl := a.Parent()
+			idx := -1
+			for k, fv := range cl.FreeVars {
+				if fv == a {
+					idx = k
+				}
+			}
+			if par := cl.Parent(); par != nil && idx >= 0 {
+				for _, b := range par.Blocks {
+					for _, ins := range b.Instrs {
+						if mc, ok := ins.(*ssa.MakeClosure); ok && mc.Fn == ssa.Value(cl) && idx < len(mc.Bindings) {
+							cell, _ = mc.Bindings[idx].(*ssa.Alloc)
+						}
+					}
+				}
+			}
+		}
+		if cell == nil {
+			return v
+		}
+		var stored ssa.Value
+		n := 0
+		for _, ref := range *cell.Referrers() {
+			if st, ok := ref.(*ssa.Store); ok && st.Addr == ssa.Value(cell) {
+				stored = st.Val
+				n++
+			}
+		}
+		if n != 1 {
+			return v
+		}
+		v = stored
+	}
+	return v
 }
